@@ -259,7 +259,7 @@ def regenerate(repo: Path) -> dict:
         status["_skeletons"] = {s["name"]: {"prov": talgo.conforms_prov(s), "elitist": talgo.is_elitist(s), "size_regular": talgo.is_size_regular(s),
                                            "raw_sites": s["raw_sites"], "core_writes": s["core_writes"], "objective_calls": s["objective_calls"],
                                            "reflect": s["reflect"], "init_agent_ok": s["init_agent_ok"], "step": [(k, f) for k, f, _ in s["step"]],
-                                           "fields": s["fields"], "greedy": s["greedy"], "fingerprint": s["fingerprint"]} for s in sks}
+                                           "fields": s["fields"], "greedy": s["greedy"], "fingerprint": s["fingerprint"], "src_fingerprint": s["src_fingerprint"]} for s in sks}
     except Exception as e:
         status["algos"] = f"ERROR: {type(e).__name__}: {e}"
         coq.write_if_changed(GEN / "Algos.v", "(* T-algo failed: " + str(e).replace("*)", "* )") + " *)\n")
